@@ -152,12 +152,18 @@ struct Array {
 
     void operator+=(Type_T &&item) {
         if (Size() == Capacity()) {
+            // The item can be an element of this array: take it out before the storage moves.
+            Type_T tmp{Memory::Move(item)};
+
 #ifdef HANIAMMAR_QENTEM_ENGINE_VERIF
             // Verification hook: exact-fit growth, so the end of the block is the logical end of the array.
             resize((Capacity() < SizeT{1024}) ? (Capacity() + SizeT{1}) : (Capacity() * SizeT{2}));
 #else
             resize((Capacity() | (Capacity() == 0)) * SizeT{2});
 #endif
+            Memory::Initialize((Storage() + Size()), Memory::Move(tmp));
+            ++index_;
+            return;
         }
 
         Memory::Initialize((Storage() + Size()), Memory::Move(item));
